@@ -73,6 +73,15 @@ def run(ctx):
             for rsize in (0, 6, 7, 65542):
                 data = _mk_stream(rng, packets, lens, 0)
                 runs.append(fc.record(data, kind, rsize, 0, rng, len(lens) + 2, f"boundary-{lens[0]}x{len(lens)}"))
+    # extreme header contents are headers like any other: all bits zero (APID 0, count 0, one data byte) and all bits one
+    zero = bytes(packets.create_ccsds_packet(b"\x00", version_number=0, type=0, secondary_header_flag=0, apid=0, sequence_flags=0, sequence_count=0))
+    ones = bytes(packets.create_ccsds_packet(b"\xff" * 65536, version_number=7, type=1, secondary_header_flag=1, apid=2047, sequence_flags=3, sequence_count=16383))
+    mid = _mk_stream(rng, packets, [3], 0)
+    for kind in ("bytes", "file", "sock"):
+        for rsize in (0, 7):
+            runs.append(fc.record(mid + zero + mid + zero + zero + mid, kind, rsize, 0, rng, 8, "all-zero-headers"))
+            runs.append(fc.record(zero + mid, kind, rsize, 0, rng, 4, "all-zero-header-first"))
+        runs.append(fc.record(mid + ones + zero + mid, kind, 0, 0, rng, 6, "all-one-header"))
     for cut in (1, 3, 6, 7, 8):   # socket chunks that end exactly `cut` bytes into each packet
         lens = [10, 20, 30]
         data = _mk_stream(rng, packets, lens, 0)
@@ -130,6 +139,12 @@ def run(ctx):
     ctx.traces += 2
     if got != want or got2 != want:
         ctx.violation("C02/show-progress-changes-framing", f"{len(got)}/{len(got2)} packets with show_progress, {len(want)} without", {"data": list(data), "skip": 3})
+    # the same for every source kind and for the smallest complete streams (no packet at all, one packet, prefixed packets)
+    pcases = []
+    for kind in ("bytes", "file", "rfile", "sock"):
+        for lens_, skip_ in (([], 0), ([], 3), ([1], 0), ([1], 5), ([300, 2], 0), ([7, 7, 7], 2)):
+            pcases.append((_mk_stream(rng, packets, lens_, skip_), kind, (0, 4)[len(pcases) % 2], skip_))
+    fc.progress_option_section(ctx, "C02", pcases)
     for label, src in (("text-mode file", _io.TextIOWrapper(_io.BytesIO(data))), ("list", [1, 2, 3]), ("str", "abc"), ("bytearray", bytearray(data))):
         try:
             items = []
@@ -198,6 +213,9 @@ def _amplify_drift(ctx, runs, packets, rng):
 def replay(ctx, obj):
     import random
     from harness import framer_io
+    if obj.get("kind") == "combine":
+        print("combining-generator case: re-run the check (C10)")
+        return
     if obj.get("kind") in fc.OS_KINDS:
         if obj.get("data") is None:
             print("replay of a large os-source case: re-run the check")
